@@ -96,7 +96,7 @@ PROPS = {
                     'action the projection of every live object (values and container identity) is compared with the object '
                     'world of the specification; threads: TLC-generated interleavings replayed by a line-level scheduler, '
                     'every call judged against the pure operator',
-            'mc': _mc({'module': 'MC_Api', 'cfg': 'MC_Api', 'tier': 'quick', 'actions': ['Construct', 'MutateObj', 'MutateUser', 'DoMarshal', 'DoUnmarshal', 'DoUnmarshalBad', 'Toggle']},
+            'mc': _mc({'module': 'MC_Api', 'cfg': 'MC_Api', 'tier': 'quick', 'actions': ['Construct', 'MutateObj', 'MutateUser', 'DoMarshal', 'DoUnmarshal', 'DoUnmarshalBad', 'Toggle', 'Spoil', 'Repair']},
                       {'module': 'MC_Api', 'cfg': 'MC_Api_deep', 'tier': 'thorough'},
                       {'module': 'MC_Threads', 'cfg': 'MC_Threads', 'tier': 'both', 'actions': ['Begin', 'Step', 'End']},
                       {'module': 'MC_Threads', 'cfg': 'MC_Threads_dev', 'tier': 'both', 'expect_violation': 'PureResults'}),
